@@ -192,7 +192,7 @@ impl Check for C12 {
         "C12"
     }
     fn workloads(&mut self, tier: Tier, _seed: u64) -> Vec<(String, u64)> {
-        let k = if tier == Tier::Quick { 1 } else { 20 };
+        let k = if tier == Tier::Quick { 10 } else { 80 };
         vec![
             ("lattice-date".into(), lattice_dates()),
             ("lattice-time".into(), lattice_times() * 14),
@@ -203,6 +203,7 @@ impl Check for C12 {
             ("mutants".into(), 300_000 * k),
             ("print-parsed".into(), 60_000 * k),
             ("print-literal".into(), 120_000 * k),
+            ("long-fractions".into(), 6 * 36 * 4),
         ]
     }
     fn run(&mut self, ctx: &mut Ctx, workload: &str, index: u64, rng: &mut Rng) {
@@ -253,7 +254,8 @@ impl Check for C12 {
                 let time = lattice_time(rng.below(lattice_times() as usize) as u64);
                 let off = lattice_offset(rng.below(lattice_offsets() as usize) as u64);
                 let delim = *rng.pick(&["T", "t", " "]);
-                let nf = rng.below(13);
+                // mostly 0-12 digits; sometimes far more than any integer type holds
+                let nf = if rng.chance(1, 8) { *rng.pick(&[15usize, 18, 19, 20, 21, 22, 25, 30, 40, 64]) } else { rng.below(13) };
                 let frac: String = if nf == 0 { String::new() } else { format!(".{}", (0..nf).map(|_| (b'0' + rng.below(10) as u8) as char).collect::<String>()) };
                 let s = match rng.below(3) {
                     0 => format!("{date}{delim}{time}{frac}{off}"),
@@ -261,6 +263,28 @@ impl Check for C12 {
                     _ => format!("{time}{frac}{off}"),
                 };
                 self.judge_string(ctx, &s);
+            }
+            "long-fractions" => {
+                ctx.count("exhaustive/long-fractions");
+                let bases = ["07:32:00", "1979-05-27T07:32:00", "1979-05-27 07:32:59", "1979-05-27T07:32:00Z", "1979-05-27t23:59:60-08:00", "2000-02-29T00:00:00+23:59"];
+                let base = bases[(index % 6) as usize];
+                let len = 10 + ((index / 6) % 36) as usize;
+                let pat = (index / 6 / 36) % 4;
+                let digits: String = match pat {
+                    0 => "9".repeat(len),
+                    1 => format!("{}1", "0".repeat(len - 1)),
+                    2 => format!("1{}", "0".repeat(len - 1)),
+                    _ => (0..len).map(|i| char::from(b'0' + ((i * 7 + 3) % 10) as u8)).collect(),
+                };
+                let (head, tail) = match base.find(|c| c == 'Z' || c == '+').or_else(|| base.rfind('-').filter(|i| *i > 10)) {
+                    Some(i) => base.split_at(i),
+                    None => (base, ""),
+                };
+                let s = format!("{head}.{digits}{tail}");
+                self.judge_string(ctx, &s);
+                if let Ok((d, _)) = parse_datetime(&s) {
+                    self.judge_print(ctx, &d, "lattice");
+                }
             }
             "valid" => {
                 let s = valid_string(rng);
